@@ -1,6 +1,7 @@
 package main
 
 import (
+	"bytes"
 	"encoding/json"
 	"fmt"
 	"os"
@@ -12,7 +13,12 @@ import (
 	"verifharness/stack"
 )
 
-func init() { commands["c10"] = c10 }
+func init() {
+	commands["c10"] = func(e *env) { c10(e, false) }
+	// c10c: the same enumeration with the chunked handler as L1 and values of several chunks;
+	// judged by the oracles alone (check10c)
+	commands["c10c"] = func(e *env) { c10(e, true) }
+}
 
 type fCase struct {
 	Deploy string      `json:"deploy"` // l1only | l1l2
@@ -69,6 +75,9 @@ type fObs struct {
 	reply   []byte
 	closed  bool
 	hang    bool
+	// hangAfter: the faulted command was answered, but the next command on the same client
+	// connection got neither a reply nor a close
+	hangAfter bool
 	n1, n2  int
 	l1, l2  string
 	reads   [][2][]byte
@@ -126,10 +135,20 @@ func runFault(c fCase, arm bool) fObs {
 		o.hang = true
 	}
 	o.n1, o.n2 = b.L1.Seq()-s1, b.L2.Seq()-s2
-	cn.Close()
-	time.Sleep(2 * time.Millisecond)
 	b.L1.ClearFaults()
 	b.L2.ClearFaults()
+	if arm && !o.hang && !closed {
+		// the same client connection afterwards: it answers or gets closed, it does not hang
+		g := stack.Req{Kind: "get", Items: []stack.GItem{{Key: []byte("never-stored"), Opaque: 11}}} // a miss in every tier: no state change
+		if c.Proto == "text" {
+			g.Items[0].Opaque = 0
+		}
+		if _, _, err := cn.Exchange(enc(g), 5*time.Second); err != nil {
+			o.hangAfter = true
+		}
+	}
+	cn.Close()
+	time.Sleep(2 * time.Millisecond)
 	o.l1, o.l2 = stack.DumpGallina(b.L1), stack.DumpGallina(b.L2)
 	// fault-free reads from a fresh main-port connection
 	cfg.Orca = orcaOf("main")
@@ -179,7 +198,7 @@ func fCaseGallina(c fCase, o fObs) string {
 		gal.Bytes(o.reply), gal.Bool(o.closed), o.l1, o.l2, gal.List(reads))
 }
 
-func c10(e *env) {
+func c10(e *env, chunkedL1 bool) {
 	w := rig.NewWriter(e.out, "C10", e.tier, e.seed)
 	w.Shards = 16
 	r := rig.NewRand(e.seed*31 + 10)
@@ -199,6 +218,9 @@ func c10(e *env) {
 			switch kind {
 			case "set", "add", "replace":
 				q.Data, q.Flags, q.TTL = []byte("NEW"), 3, 0
+				if chunkedL1 {
+					q.Data = bytes.Repeat([]byte("NEW-"), 600) // three chunks
+				}
 			case "append", "prepend":
 				q.Data = []byte("+x")
 			case "touch", "gat":
@@ -212,10 +234,14 @@ func c10(e *env) {
 			}
 			return q
 		}
+		old := []byte("OLD")
+		if chunkedL1 {
+			old = bytes.Repeat([]byte("old."), 400) // two chunks
+		}
 		setups := [][]stack.Req{
 			{},
-			{{Kind: "set", Key: []byte("a"), Data: []byte("OLD"), Flags: 1}},
-			{{Kind: "set", Key: []byte("a"), Data: []byte("OLD"), Flags: 1}, {Kind: "set", Key: []byte("bb"), Data: []byte("B"), Flags: 2}},
+			{{Kind: "set", Key: []byte("a"), Data: old, Flags: 1}},
+			{{Kind: "set", Key: []byte("a"), Data: old, Flags: 1}, {Kind: "set", Key: []byte("bb"), Data: []byte("B"), Flags: 2}},
 		}
 		kinds := []string{"set", "add", "replace", "append", "prepend", "delete", "touch", "gat", "get", "mget", "mgetn"}
 		type cfgT struct {
@@ -224,7 +250,12 @@ func c10(e *env) {
 		}
 		cfgs := []cfgT{{"l1l2", "main", "bin", "std", false}, {"l1l2", "batch", "bin", "std", false}, {"l1only", "main", "bin", "std", false},
 			{"l1l2", "main", "text", "std", false}, {"l1l2", "main", "bin", "std", true}}
-		if thorough {
+		if chunkedL1 {
+			cfgs = []cfgT{{"l1only", "main", "bin", "chunked", false}, {"l1l2", "main", "bin", "chunked", false}}
+			if thorough {
+				cfgs = append(cfgs, cfgT{"l1l2", "batch", "bin", "chunked", false}, cfgT{"l1only", "main", "text", "chunked", false}, cfgT{"l1l2", "main", "bin", "chunked", true})
+			}
+		} else if thorough {
 			cfgs = append(cfgs, cfgT{"l1l2", "batch", "text", "std", false}, cfgT{"l1only", "main", "text", "std", true}, cfgT{"l1l2", "batch", "bin", "std", true})
 		}
 		for _, cf := range cfgs {
@@ -291,8 +322,17 @@ func c10(e *env) {
 			continue
 		}
 		if o.hang {
+			if os.Getenv("VERIF_DEBUG") != "" {
+				b, _ := json.Marshal(c)
+				fmt.Fprintf(os.Stderr, "hang: %s\n", b)
+			}
 			w.Fail(rig.GoFailure{Kind: "counterexample", What: "the client request neither completed nor was its connection closed within 5 s after a backend fault (hang)",
 				Input: c, Detail: fmt.Sprintf("%d reply bytes received", len(o.reply)), Tags: hangTags(c)})
+			continue
+		}
+		if o.hangAfter {
+			w.Fail(rig.GoFailure{Kind: "counterexample", What: "after a backend fault was answered, the next command on the same client connection neither completed nor was the connection closed within 5 s (hang)",
+				Input: c, Tags: hangTags(c)})
 			continue
 		}
 		w.Count("fault=" + c.Kind)
@@ -302,7 +342,12 @@ func c10(e *env) {
 	}
 	w.Res.Exhaustive = true
 	w.Res.Rule = "for every (configuration, setup, command kind): the command is first run fault-free to count its backend requests per tier, then re-run once per (tier, request index, fault kind in {close before/after-apply/after-reply/mid-reply, error status}) with that fault armed in the fake backend; afterwards fault-free reads from a fresh connection; non-trivial = the fault hits after partial progress (index > 0) or on a non-empty store; enumeration is exhaustive over positions and kinds (statuses sampled in quick, all 13 in thorough)"
-	if err := w.Finish([]string{"base.Bytes", "base.Harness", "spec.MapSpec", "orca.Types", "orca.Faults", "proto.Resp", "checks.Check01", "checks.Check10"}, "case10", "check10"); err != nil {
+	fn := "check10"
+	if chunkedL1 {
+		fn = "check10c"
+		w.Res.Rule += "; this run: the chunked handler as L1 with values of two and three chunks, judged by the oracles (answered or closed, well-formed frames, no stale value after an ack) without a step model"
+	}
+	if err := w.Finish([]string{"base.Bytes", "base.Harness", "spec.MapSpec", "orca.Types", "orca.Faults", "proto.Resp", "checks.Check01", "checks.Check10"}, "case10", fn); err != nil {
 		rig.Die("%v", err)
 	}
 }
